@@ -49,6 +49,13 @@ impl ColumnIndex {
             let index = BlockIndex::decode_length_delimited(&mut index_data)?;
             indexes.push(index);
         }
+        // the block count lives in the footer, outside of the checksum: it is only right if it
+        // consumes exactly the index entries the checksum covers
+        if !index_data.is_empty() {
+            return Err(TracedStorageError::decode(
+                "failed to decode column index: block count does not match the index entries",
+            ));
+        }
 
         Ok(Self {
             indexes: indexes.into(),
